@@ -24,6 +24,7 @@ from league import (
 )
 from oracles import (
     check_sigma,
+    tau_bound,
     id_mode,
     diff_state,
     mk_rating,
@@ -1435,7 +1436,7 @@ class SigmaDriver:
                     # PREVIOUS game left (not from what the objects hold now - nothing but a
                     # game, a restart from the store or a re-seed touches them in between)
                     prev = tr[2]
-                    if s1 > math.sqrt(prev * prev + tau * tau) * (1 + 1e-14):
+                    if s1 > tau_bound(prev, tau) * (1 + 1e-14):
                         ctx.violation("C06/trajectory_bound:growth_between_consecutive_games", dict(where, name=n, after_previous_game=enc(prev), prior_now=enc(s0), post=enc(s1), tau=enc(tau)))
                     if limit and s1 > prev:
                         ctx.violation("C06/trajectory_bound:rose_between_consecutive_games_under_limit", dict(where, name=n, after_previous_game=enc(prev), prior_now=enc(s0), post=enc(s1)))
@@ -1443,7 +1444,9 @@ class SigmaDriver:
                 tr[3] += 1
                 # rounding slack grows with the length of the trajectory: every game rounds
                 # sqrt(s^2 + tau^2) and the shrink product (a few ulp of sigma^2 per game)
-                if s1 * s1 > (tr[0] + tr[1]) * (1 + 4e-14 + 2e-15 * tr[3]):
+                if tr[0] + tr[1] > 1e-280 and s1 * s1 > (tr[0] + tr[1]) * (1 + 4e-14 + 2e-15 * tr[3]):
+                    # (below 1e-280 the squares are subnormal or nearly so and carry only a few
+                    # bits: the clause is checked per game, in tau_bound's robust form, only)
                     ctx.violation("C06/trajectory_bound", dict(where, name=n, start_sq=enc(tr[0]), acc_tau_sq=enc(tr[1]), post=enc(s1)))
                 tr[2] = s1
                 infl = math.sqrt(s0 * s0 + tau * tau)
